@@ -389,7 +389,12 @@ func hasPrefixEvents(now, old []core.Event) bool {
 		return false
 	}
 	for i := range old {
-		if now[i].Raw != old[i].Raw {
+		if now[i].Type != old[i].Type || now[i].TS != old[i].TS {
+			return false
+		}
+		a, _ := json.Marshal(now[i].Data) // canonical (sorted keys): a rewrite may re-serialise an event, its content must not change
+		b, _ := json.Marshal(old[i].Data)
+		if string(a) != string(b) {
 			return false
 		}
 	}
